@@ -94,4 +94,26 @@ TEXT["C14"] = {
              "a fresh lower-level decoder accepts it, and score, severity/validity and encoding coincide. Correspondence: accessor results vs "
              "independent lower-level decode and vs the specification's lower-level values.",
     "ref": "5 (C14)", "note": _PNOTE, "technique": "Lean 4 proof (projection lemmas on the fold invariant) + accessor correspondence"}
+TEXT["C17"] = {
+    "level": "Report.schema states field by field what each report path must show; theorems wiring / levels / version_field / paths_unique "
+             "(every <Metric>Name/<Metric>Value path of the right embedded report shows that metric's title/value and nothing else does; "
+             "Vector, scores and severities belong to their own level, the higher level shadowing the lower), score_rendering. The names "
+             "tables underneath are regenerated from /repo on every run. Correspondence: every exported string field of every report "
+             "(embedded included, by reflection) on an all-values cover x levels x languages.",
+    "ref": "5 (C17)", "note": _NOTE,
+    "technique": "Lean 4 proof (decide on the declarative schema) + regenerated names tables + field-by-field report correspondence"}
+TEXT["C18"] = {
+    "level": "The names tables are translated from /repo's Go source into Lean on every run (go/extract); theorems by kernel evaluation over the "
+             "regenerated tables: all titles/headers and all defined values (incl. Not Defined) non-empty in English and Japanese, injective per "
+             "metric and language, Modified = base names, key sets = defined values; for ALL integers out of range => Unknown/未定義 and for ALL "
+             "non-English, non-Japanese tags => English. Correspondence: exhaustive dump of the 52 functions x integers -3..10 x tags.",
+    "ref": "5 (C18)", "note": _NOTE,
+    "technique": "Lean 4 proof over a model regenerated from the source by a translator + exhaustive behavioural dump"}
+TEXT["C19"] = {
+    "level": "PARTIAL: text/template is a parameter of the model. Theorems about the export glue: nil / failing reader => invalid-template and no "
+             "output; reader = string with the full content; nil report => null-pointer; engine failure => invalid-template and no output; "
+             "otherwise exactly the engine's text; never output together with an error. The fidelity to text/template is checked by the "
+             "harness calling text/template directly on the same report for generated valid and invalid templates.",
+    "ref": "5 (C19)", "note": _NOTE + " text/template is trusted as the oracle, not modelled.",
+    "technique": "Lean 4 proof of the glue (engine abstract) + differential run against text/template"}
 NOT_YET = {}
